@@ -74,3 +74,9 @@ def fir_history_from_new_block_only(what, case, detail):
     return isinstance(case, dict) and case.get("d9_shape") is True and what in (
         "block-wise output followed by flush equals one-block output followed by flush",
         "number of output samples equals number of input samples")
+
+
+def truncated_pair_half(what, case, detail):
+    """D17: the cut removes one half of an L/R pair; the surviving half is exported under its own name."""
+    return what == "every reported file is also reported for the complete image" and isinstance(case, dict) \
+        and case.get("unpaired_half") is True
